@@ -143,8 +143,13 @@ impl IndicatorInstance for ChandeMomentumOscillatorInstance {
 		self.pos_sum += right_pos - left_pos;
 		self.neg_sum += right_neg - left_neg;
 
-		let value = if self.pos_sum != 0. || self.neg_sum != 0. {
-			(self.pos_sum - self.neg_sum) / (self.pos_sum + self.neg_sum)
+		// Both sums are non-negative by definition, but they are updated incrementally and may be left with a
+		// tiny residue of either sign after the price stops moving.
+		let pos_sum = self.pos_sum.max(0.);
+		let neg_sum = self.neg_sum.max(0.);
+
+		let value = if pos_sum + neg_sum > 0. {
+			(pos_sum - neg_sum) / (pos_sum + neg_sum)
 		} else {
 			0.
 		};
